@@ -242,6 +242,30 @@ def verifyBmff (pre : List UInt8) (alg : String) (resolved : Option (List HashRa
   | none => .err .handler
   | some ex => compareHash pre (hashModel alg data (some ex) true buf none)
 
+/-! ### BMFF exclusion resolution: the `data` constraint of an exclusion entry
+(`bmff_to_jumbf_exclusions`, loop over `data_map_vec`) -/
+
+structure DataMap where
+  off : Nat
+  value : List UInt8
+  deriving Repr
+
+/-- the code: for each map `skip_bytes_to(box_start + offset)`, `read_to_vec(value.len())`,
+`vec_compare`; the first mismatch ends the loop with "no match". The read does **not** stop at
+the end of the box. `none` = the read runs past the end of the file (the resolver fails). -/
+def dataMapsCode (file : List UInt8) (boxStart : Nat) : List DataMap → Option Bool
+  | [] => some true
+  | dm :: rest =>
+    if boxStart + dm.off + dm.value.length > file.length then none
+    else if (file.drop (boxStart + dm.off)).take dm.value.length = dm.value then
+      dataMapsCode file boxStart rest
+    else some false
+
+/-- the assertion's wording: every pattern lies inside the box and equals the bytes there -/
+def dataMapsSpec (file : List UInt8) (boxStart boxLen : Nat) (dms : List DataMap) : Bool :=
+  dms.all fun dm => decide (dm.off + dm.value.length ≤ boxLen) &&
+    decide ((file.drop (boxStart + dm.off)).take dm.value.length = dm.value)
+
 /-! ### the box-hash and BMFF arms of `Claim::verify_hash_binding`; status codes -/
 
 /-- how every arm maps the verifier's result: `Ok` -> success entry, a fatal error
@@ -452,6 +476,21 @@ def handle (toks : List String) : String :=
         | _ => BmffSelf.ok
       (bindBmff self pre (field rest "alg") ex data buf).reply .bmff
     | none => "bad-request"
+  -- data constraint of a BMFF exclusion on the box that starts at `start` of `data`
+  | "bmx" :: rest =>
+    let maps := (splitList (if field rest "maps" == "-" then "" else field rest "maps") ",").mapM fun t =>
+      match t.splitOn ":" with
+      | [o, h] => match o.toNat?, fromHex? h with
+        | some o, some v => some (DataMap.mk o v)
+        | _, _ => none
+      | _ => none
+    match fromHex? (field rest "data"), (field rest "start").toNat?, maps with
+    | some d, some st, some ms =>
+      match dataMapsCode d st ms with
+      | none => "err"
+      | some true => "match"
+      | some false => "nomatch"
+    | _, _, _ => "bad-request"
   -- a case that only carries a property-oracle failure of the implementation (no model content)
   | "oracle" :: _ => "oracle-only"
   | _ => "bad-op"
